@@ -25,6 +25,8 @@ type DirEntry struct {
 	Src   *SrcFile `json:"src,omitempty"`
 	Text  string   `json:"text,omitempty"`
 	TextB []byte   `json:"textb,omitempty"`
+	// Dangling: the entry is a symbolic link to a path that does not exist
+	Dangling bool `json:"dangling,omitempty"`
 	// Perm: a permission fault, effective only when the tool runs without root's exemption (DirCase.Unpriv):
 	// "readonly" = 0444 (parses, cannot be written back), "unreadable" = 0000
 	Perm string `json:"perm,omitempty"`
@@ -95,7 +97,7 @@ func genDirCase(t *rapid.T) *DirCase {
 	n := rapid.IntRange(1, ev.Pick(10, 12)).Draw(t, "nEntries")
 	used := map[string]bool{}
 	for i := 0; i < n; i++ {
-		kind := rapid.SampledFrom([]string{"annotated", "annotated", "annotated", "plain", "unexpected", "unexpected", "broken", "broken", "nongo", "subdir", "nongo-valid", "dotfile", "symlink"}).Draw(t, "entryKind")
+		kind := rapid.SampledFrom([]string{"annotated", "annotated", "annotated", "plain", "unexpected", "unexpected", "broken", "broken", "nongo", "subdir", "nongo-valid", "dotfile", "symlink", "dangling"}).Draw(t, "entryKind")
 		prefix := rapid.SampledFrom([]string{"a", "m", "z", "0", "B"}).Draw(t, "sortPrefix") // bad files sort before, between and after good ones
 		name := fmt.Sprintf("%s%d_%s", prefix, i, kind)
 		e := DirEntry{Kind: kind}
@@ -132,6 +134,11 @@ func genDirCase(t *rapid.T) *DirCase {
 			// a .go entry that is a symbolic link to an annotated file kept elsewhere: processed through the link
 			e.Name = name + ".pb.go"
 			e.Src = genSrcFile(t, e.Name, 1)
+		case "dangling":
+			// a symbolic link whose target does not exist (os.Stat fails although the directory lists it)
+			e.Kind = "nongo"
+			e.Name = name + rapid.SampledFrom([]string{".pb.go", ".link", ".go"}).Draw(t, "danglingExt")
+			e.Dangling = true
 		case "dotfile":
 			// hidden regular files (they sort before everything else) and hidden Go files
 			e.Kind = "nongo"
@@ -220,6 +227,14 @@ func checkDir(c *DirCase) (msg string, badBeforeGood bool) {
 		if e.Kind == "subdir" {
 			_ = os.Mkdir(p, 0o755)
 			p = filepath.Join(p, "inner.pb.go")
+		}
+		if e.Dangling {
+			if err := os.Symlink(filepath.Join(dir, "no-such-target-"+e.Name), p); err != nil {
+				return "harness: " + err.Error(), false
+			}
+			files = append(files, orig{p, txt, spans, e})
+			names = append(names, e.Name)
+			continue
 		}
 		if e.Kind == "symlink" {
 			real := filepath.Join(dir, "zz_realfiles.d")
@@ -316,6 +331,12 @@ func checkDir(c *DirCase) (msg string, badBeforeGood bool) {
 		}
 	}
 	for _, f := range files {
+		if f.e.Dangling {
+			if _, err := os.Lstat(f.path); err != nil {
+				return fmt.Sprintf("the dangling link %s is gone after the run: %v", f.e.Name, err), badBeforeGood
+			}
+			continue
+		}
 		if unpriv && f.e.Perm != "" {
 			_ = os.Chmod(f.path, 0o644)
 		}
